@@ -90,6 +90,10 @@ type vc19CBackend struct {
 	mu   sync.Mutex
 	gate *vc19Gate
 	recs []vc19Rec
+
+	// plans are the scripted answers by request tag (the X-Vc19-Case header);
+	// each is consumed by the first request carrying the tag.
+	plans map[string]vc19Plan
 }
 
 func (b *vc19CBackend) ServeHTTP(w http.ResponseWriter, r *http.Request) {
@@ -103,23 +107,33 @@ func (b *vc19CBackend) ServeHTTP(w http.ResponseWriter, r *http.Request) {
 		Host:   r.Host,
 		CaseID: r.Header.Get("X-Vc19-Case"),
 		Hdr:    r.Header.Clone(),
+		Srv:    "backend",
 	})
 	g := b.gate
+	tag := r.Header.Get("X-Vc19-Case")
+	plan, planned := b.plans[tag]
+	delete(b.plans, tag)
 	b.mu.Unlock()
 
 	if g != nil {
 		g.arrive(2 * time.Second)
 	}
 
+	if planned && plan.redirect() {
+		w.Header().Set("Location", plan.Location)
+		w.WriteHeader(plan.Status)
+	}
+
 	_, _ = io.WriteString(w, "vc19-backend-ok")
 }
 
-func (b *vc19CBackend) arm(g *vc19Gate) (old []vc19Rec) {
+func (b *vc19CBackend) arm(g *vc19Gate, plans map[string]vc19Plan) (old []vc19Rec) {
 	b.mu.Lock()
 	defer b.mu.Unlock()
 
 	old, b.recs = b.recs, nil
 	b.gate = g
+	b.plans = plans
 
 	return old
 }
@@ -176,13 +190,16 @@ type vc19COne struct {
 
 	// local404: the request must be answered locally with 404.
 	local404 bool
+
+	// plan is the backend's scripted answer to this request.
+	plan vc19Plan
 }
 
 func TestVerifC19Concurrent(t *testing.T) {
 	st := vstat.New("C19", "websvc.concurrent",
 		"rapid draws K=2..8 requests (the four documented shapes, unique device-id tag, forged forwarding / client-IP / Connection header sets; from the third on a member may instead be a one-component near miss that must get a local 404 while the others are in flight) from pairwise distinct loopback peers (127.0.0.1-127.0.0.8, ::1) to one linkedIPHandler; a barrier releases all K into the handler at once and the recording backend holds each until all K are inside it; per request: exactly one X-Connecting-IP equal to its own socket peer, no marker in a forwarding header, its own method and path; non-trivial = at least two requests from different peers were inside the backend handler simultaneously; distinct by the multiset of (peer, shape, header names)",
 		"overlap>=2-distinct-peers", "overlap=all", "round-has-ipv4-and-ipv6", "k>=5", "forged-header-in-round",
-		"round-has-locally-answered-member")
+		"round-has-locally-answered-member", "backend-answered-with-a-redirect")
 	st.Finish(t)
 
 	backend := &vc19CBackend{}
@@ -243,6 +260,7 @@ func TestVerifC19Concurrent(t *testing.T) {
 		ones := make([]*vc19COne, k)
 		anyForged := false
 		nFwd := 0
+		plans := map[string]vc19Plan{}
 		for i := range ones {
 			o := &vc19COne{req: &vc19Req{Proto: "HTTP/1.1"}}
 			if order[i] == 0 {
@@ -291,6 +309,15 @@ func TestVerifC19Concurrent(t *testing.T) {
 				}
 			} else {
 				nFwd++
+				if rapid.IntRange(0, 3).Draw(t, "backend-redirects") == 0 {
+					o.plan = vc19Plan{
+						Status: rapid.SampledFrom([]int{301, 302, 303, 307, 308}).Draw(t, "redirect-status"),
+						Location: rapid.SampledFrom([]string{
+							"/account", "/", "/linkip/dev9/enc9", bsrv.URL + "/account", bsrv.URL + "/ddns/dev9/enc9/example.org",
+						}).Draw(t, "redirect-target"),
+					}
+					plans[o.tag] = o.plan
+				}
 			}
 
 			o.req.RawPath = "/" + strings.Join(segs, "/")
@@ -311,7 +338,7 @@ func TestVerifC19Concurrent(t *testing.T) {
 		}
 
 		tapGate, backGate := vc19NewGate(k), vc19NewGate(nFwd)
-		if old := backend.arm(backGate); len(old) != 0 {
+		if old := backend.arm(backGate, plans); len(old) != 0 {
 			t.Fatalf("harness anomaly: backend got %d requests between rounds: %+v", len(old), old)
 		}
 
@@ -364,7 +391,7 @@ func TestVerifC19Concurrent(t *testing.T) {
 		close(start)
 		wg.Wait()
 
-		recs := backend.arm(nil)
+		recs := backend.arm(nil, nil)
 		fr.tap.arm(nil)
 		perrs := errs.take()
 		tapArrived, tapTimedOut := tapGate.stats()
@@ -403,7 +430,7 @@ func TestVerifC19Concurrent(t *testing.T) {
 			byTag[tag] = append(byTag[tag], rec)
 		}
 
-		forwarded, nLocal := 0, 0
+		forwarded, nLocal, nRedirect := 0, 0, 0
 		peersAtBackend := map[netip.Addr]struct{}{}
 		for _, o := range ones {
 			if o.err != nil {
@@ -435,7 +462,13 @@ func TestVerifC19Concurrent(t *testing.T) {
 			}
 
 			if len(rs) > 1 {
-				t.Fatalf("backend contacted %d times for one client request: %+v; %s", len(rs), rs, desc(o))
+				t.Fatalf("backend contacted %d times for one client request: %s; %s", len(rs), vc19RecList(rs), desc(o))
+			}
+
+			if o.plan.redirect() {
+				// What the client gets for a redirecting backend is not part of
+				// the statement; only what reaches the backend is judged.
+				nRedirect++
 			}
 
 			forwarded++
@@ -468,7 +501,8 @@ func TestVerifC19Concurrent(t *testing.T) {
 		}
 
 		for tag, rs := range byTag {
-			t.Fatalf("backend got requests that no client of this round sent (tag %q): %+v", tag, rs)
+			t.Fatalf("backend got requests that no client of this round sent, e.g. a redirect followed by the proxy (tag %q): %s; round of %d to front base=%q",
+				tag, vc19RecList(rs), k, fr.base)
 		}
 
 		// Statistics.
@@ -493,6 +527,10 @@ func TestVerifC19Concurrent(t *testing.T) {
 
 		if nLocal > 0 {
 			classes = append(classes, "round-has-locally-answered-member")
+		}
+
+		if nRedirect > 0 {
+			classes = append(classes, "backend-answered-with-a-redirect")
 		}
 
 		key := ""
@@ -548,6 +586,7 @@ func vc19Exchange(conn net.Conn, method string, raw []byte) (resp vc19Resp, time
 
 	resp.Status = hr.StatusCode
 	resp.Body = string(body)
+	resp.Location = hr.Header.Get("Location")
 
 	return resp, false, nil
 }
